@@ -8,27 +8,30 @@ import sys
 VERIF = os.path.dirname(os.path.dirname(os.path.abspath(__file__)))
 sys.path.insert(0, VERIF)
 
+sys.path.insert(0, os.path.dirname(os.path.abspath(__file__)))
+from reuse_text import reuse_text
+
 props = [json.loads(l) for l in open(os.path.join(VERIF, "properties.jsonl"))]
 checks, na = [], []
 TECH = {
-    "C01": "AST/CFG dataflow: reaching definitions, who-may-mutate, post-dominance, no-await-between, finite-set abstract interpretation of the packet counter",
-    "C02": "CFG branch dominance + constant folding + three-valued condition evaluation + call-site value-set analysis",
+    "C01": "AST/CFG dataflow: reaching definitions, who-may-mutate, post-dominance, no-await-between, flag-release on all exits (exceptional CFG), finite-set abstract interpretation of the packet counter, forward dataflow of the connection state over suspension points (re-used from C07)",
+    "C02": "CFG branch dominance, no-await-between (expiry test to first byte written), constant folding, three-valued condition evaluation, call-site value-set analysis",
     "C03": "symbolic length domain + bit-provenance abstract interpretation of encoder/decoder pairs + registry model",
-    "C04": "bit-provenance abstract interpretation of control encoders vs vendor tables + API table checker + value-set analysis",
-    "C05": "bit-provenance abstract interpretation of decoders vs vendor tables + constant propagation at sentinel witnesses",
+    "C04": "bit-provenance abstract interpretation of control encoders vs vendor tables + API table checker + value-set analysis + constant propagation of grid witnesses through the set-point and quick-timer arithmetic (checker's own interpreter, nothing of the repository is executed)",
+    "C05": "bit-provenance abstract interpretation of decoders vs vendor tables, constant propagation at sentinel witnesses, buffer-offset domain for record strides and strings, reaching definitions with the loop back edge cut (per-record state)",
     "C06": "GF(2)-affine abstract interpretation of the CRC step (proof for all inputs) + table regeneration + validate-before-deliver dominance",
-    "C07": "exceptional CFG, dominance/post-dominance, may-escape effect analysis over the call graph, who-may-call/write",
-    "C08": "deadline-loop idiom extraction, constant folding, who-may-call",
+    "C07": "exceptional CFG, dominance/post-dominance, may-escape effect analysis over the call graph, who-may-call/write, forward dataflow of (is_connected, writer stored) over every method with a coherence obligation at every suspension point and exit",
+    "C08": "deadline-loop idiom extraction with an every-wait-under-deadline obligation, constant folding, who-may-call",
     "C09": "match-statement FSM extraction, guard/shadowing analysis, affine range check",
-    "C10": "table totality/naming checker, getter provenance, store-before-exit dominance",
+    "C10": "table totality/naming checker, getter provenance, store-before-exit dominance, store-before-first-await",
     "C11": "guard-dominates-send, path send count, rounding/clamping shape analysis",
-    "C12": "control dependence of notifications on old != new, container model, isolation shape",
-    "C13": "who-may-read + read-order dominance (complete modulo the readexactly contract)",
+    "C12": "control dependence of notifications on old != new, container model, isolation shape, no-await-between container read and notification (reaching definitions)",
+    "C13": "who-may-read + read-order dominance + no rejection outside the codecs (complete modulo the readexactly contract)",
     "C14": "branch structure of _connection_changed + deadline-loop idiom extraction",
     "C15": "task create/cancel pairing, dominance order in close()/shutdown(), guard analysis",
     "C16": "dominance order purge/capacity/append, comparison normal forms, accepted-idiom obligation for the purge scan",
     "C17": "fallback shape analysis (one length, raw slice), catch-all coverage, stride rules",
-    "C18": "constant folding, loop ranking function, split arity/index tables, container model",
+    "C18": "constant folding, loop ranking function evaluated over the counter, split arity/index tables, container model, constant propagation of vendor-format witness datagrams through match()",
     "C19": "sibling cross-check: signatures vs Protocol, table parity, guard skeletons",
 }
 for p in props:
@@ -39,7 +42,7 @@ for p in props:
         continue
     mod = importlib.import_module(f"sa.rules.{pid.lower()}")
     level = getattr(mod, "LEVEL", "other")
-    expl = getattr(mod, "EXPLANATION", "")
+    expl = getattr(mod, "EXPLANATION", "") + reuse_text(mod)
     text = getattr(mod, "LEVEL_TEXT", None) or (
         ("Proof-level for the rules listed as PROOF_RULES (all inputs, by abstract interpretation in an exact domain); " if level == "proof" else "")
         + "Static decision of named structural clauses, each a necessary condition of the property whose breach breaks the behaviour; "
